@@ -161,6 +161,10 @@ TestMsg == <<109>>
 
 B0 == [op |-> "", loc |-> <<>>, l |-> 0, o |-> 0, kind |-> "", par |-> 0, name |-> <<>>, fmt |-> <<>>, msg |-> <<>>]
 
+(* levels of the generated log steps; a model whose contexts start DISABLED (root level "none",
+   MC_LogContextScripts_none.cfg) logs at fatal: "none" must not behave like the highest level *)
+GenLogLevels == IF Disabled \in RootLevels THEN {4, 5} ELSE {1, 4}
+
 OpsOf(s) ==
   LET free == Objs \ Bound(s)
       newo == IF free = {} THEN {} ELSE {CHOOSE o \in free : \A q \in free : o <= q}
@@ -173,7 +177,7 @@ OpsOf(s) ==
           o \in newo, n \in Names, q \in {r \in Bound(s) : Len(s.obj[r].path) < MaxDepth}}
   \cup {[B0 EXCEPT !.op = "level", !.o = o] : o \in (IF GenObservers THEN Bound(s) ELSE {})}
   \cup {[B0 EXCEPT !.op = "enabled", !.o = o, !.l = l] : o \in (IF GenObservers THEN Bound(s) ELSE {}), l \in {0, 3, 5}}
-  \cup {[B0 EXCEPT !.op = "log", !.o = o, !.l = l, !.msg = TestMsg] : o \in (IF GenObservers THEN Bound(s) ELSE {}), l \in {1, 4}}
+  \cup {[B0 EXCEPT !.op = "log", !.o = o, !.l = l, !.msg = TestMsg] : o \in (IF GenObservers THEN Bound(s) ELSE {}), l \in GenLogLevels}
 
 Init ==
   /\ \E r \in RootLevels : st = NewCtx(r, DefaultLf)
